@@ -267,6 +267,8 @@ def record_points(cfg):
 def build(tier, rnd):
     scs, meta = [], []
     dh = rating.tables()['dheat']
+    # a built-in policy that prescribes a group-exchange modulus size (its evaluation reads what the group-exchange probe measured)
+    gex_policy = next(n for n, p in sorted(rating.tables()['policies'].items()) if p['server'] and 'diffie-hellman-group-exchange-sha256' in p['dh_modulus_sizes'])
     everything = [(n, c, 'server', []) for n, c in archetypes().items()] + [(n,) + t for n, t in other_archetypes().items()]
     for name, cfg, role, xargs in everything:
         def mk(c, skip_rate=True, role=role, xargs=xargs):
@@ -298,8 +300,28 @@ def build(tier, rnd):
                 c['mutate'] = mk_mutator(n, idx, fn)
                 scs.append(mk(c))
                 meta.append((name, 'conn%d/%s#%d/%s' % (n, kind, idx, fname), (n, kind), cfg, True))
+        # the same probe-phase faults under a policy audit: the policy is evaluated on whatever the probes managed to measure
+        if role == 'server' and cfg.get('gex') and cfg.get('ssh1') is None:
+            for (n, idx, kind, data) in pts:
+                if kind not in ('gexgroup', 'gexreply', 'kexreply') or n > 8:
+                    continue
+                for fname, fn in (('eof', f_eof), ('stall', f_stall), ('random', f_random(rnd.randrange(1 << 30))), ('type=1', f_patch(5, bytes([1])))):
+                    c = Cfg(cfg)
+                    c['mutate'] = mk_mutator(n, idx, fn)
+                    scs.append(scenario(c, skip_rate=True, extra_args=list(xargs) + ['-P', gex_policy], role=role))
+                    meta.append((name, 'conn%d/%s#%d/%s/policy-audit' % (n, kind, idx, fname), (n, kind), cfg, True))
+            # ... and a server on which *no* group-exchange probe gets an answer (every request is met with a close, silence, or
+            # something else): the policy prescribes a size for an algorithm the server advertises but nothing was measured
+            for fname, fn in (('eof', f_eof), ('stall', f_stall), ('type=1', f_patch(5, bytes([1]))), ('random', f_random(7))):
+                c = Cfg(cfg)
+
+                def every_group(n, kind, idx, data, fn=fn):
+                    return fn(data) if kind == 'gexgroup' else [data]
+                c['mutate'] = every_group
+                scs.append(scenario(c, skip_rate=True, extra_args=list(xargs) + ['-P', gex_policy], role=role))
+                meta.append((name, 'connN/gexgroup#all/%s/policy-audit' % fname, (9, 'gexgroup'), cfg, True))
         # whole-stream variations
-        for dbg in (1, 2, 3):
+        for dbg in ((1, 2, 3, 1500) if name in ('dropbear', 'client') else (1, 2, 3)):        # 1500: a run long enough to exhaust a reader that recurses per message
             c = Cfg(cfg)
             c['debug'] = dbg
             scs.append(mk(c))
@@ -570,6 +592,7 @@ def fault_class(what):
     w = re.sub(r'ssh1-type=\d+', 'ssh1-type', w)
     w = re.sub(r'ssh1-masks=[0-9a-f]+/[0-9a-f]+', 'ssh1-masks', w)
     w = re.sub(r'oddversion\d+', 'oddversion', w)
+    w = re.sub(r'debugx\d+', 'debugx', w)
     w = re.sub(r'strlen@\d+=\d+', 'strlen', w)
     w = re.sub(r'strlen@\d+=huge', 'strlen=huge', w)
     w = re.sub(r'strbyte@\d+/(first|last)=', 'strbyte=', w)
